@@ -40,13 +40,25 @@ Proof.
   - eapply EqSet_trans; [now apply setitem_EqSet|]. now apply r_set_EqSet.
 Qed.
 
+Ltac dex1 := match goal with |- context [@existsb ?T kv_unhashable ?l] =>
+                 let U := fresh "U" in destruct (@existsb T kv_unhashable l) eqn:U end.
+Ltac dex2 := dex1; try dex1; simpl.
+Ltac contra2 := match goal with
+  | U : _ = true, U0 : _ = false |- _ =>
+      exfalso; assert (true = false) by exact (eq_trans (eq_sym U) U0); discriminate
+  end.
+
 Lemma step_refines o op : OtoInv o ->
   o_op_ok (o_fwd o) (tr_oop op) (tr_res (snd (oto_step o op))) (o_fwd (fst (oto_step o op))) = true.
 Proof.
-  intro H. destruct op as [k v|k|k d| | |k d|kvs|kvs|k]; simpl.
-  - apply same_set_true. now apply setitem_EqSet.
-  - rewrite r_has_key_get. destruct (d_get (o_fwd o) k) eqn:E; simpl; apply same_set_refl.
-  - rewrite r_lookup_get. destruct (d_get (o_fwd o) k) eqn:E; simpl.
+  intro H. unfold o_op_ok. destruct op as [k v|k|k d| | |k d|kvs|kvs|k]; simpl;
+    change is_unhashable with unhashable; change pair_unhashable with kv_unhashable.
+  - destruct (unhashable k), (unhashable v); simpl; try apply same_set_refl.
+    apply same_set_true. now apply setitem_EqSet.
+  - destruct (unhashable k); simpl; [apply same_set_refl|].
+    rewrite r_has_key_get. destruct (d_get (o_fwd o) k) eqn:E; simpl; apply same_set_refl.
+  - destruct (unhashable k); simpl; [apply same_set_refl|].
+    rewrite r_lookup_get. destruct (d_get (o_fwd o) k) eqn:E; simpl.
     + rewrite Nat.eqb_refl. apply same_set_refl.
     + destruct d; simpl; rewrite ?Nat.eqb_refl; apply same_set_refl.
   - destruct (rev (o_fwd o)) as [|[k v] r] eqn:E; simpl.
@@ -58,12 +70,18 @@ Proof.
       * apply r_mem_In. now apply get_In.
       * apply same_set_refl.
   - reflexivity.
-  - rewrite r_lookup_get. destruct (d_get (o_fwd o) k) eqn:E; simpl; rewrite Nat.eqb_refl; simpl.
-    + apply same_set_refl.
-    + apply same_set_true. now apply setitem_EqSet.
-  - apply same_set_true. apply update_EqSet; trivial. apply EqSet_refl.
-  - apply same_set_true. apply update_EqSet; trivial. apply EqSet_refl.
-  - rewrite r_lookup_get. destruct (d_get (o_fwd o) k) eqn:E; simpl; rewrite ?Nat.eqb_refl; apply same_set_refl.
+  - rewrite r_has_key_get, r_lookup_get.
+    destruct (unhashable k); simpl; [apply same_set_refl|].
+    destruct (d_get (o_fwd o) k) eqn:E; simpl.
+    + rewrite Nat.eqb_refl. apply same_set_refl.
+    + destruct (unhashable d); simpl; [apply same_set_refl|].
+      rewrite Nat.eqb_refl. simpl. apply same_set_true. now apply setitem_EqSet.
+  - dex2; try contra2; [apply same_set_refl|].
+    apply same_set_true. apply update_EqSet; trivial. apply EqSet_refl.
+  - dex2; try contra2; [apply same_set_refl|].
+    apply same_set_true. apply update_EqSet; trivial. apply EqSet_refl.
+  - destruct (unhashable k); simpl; [apply same_set_refl|].
+    rewrite r_lookup_get. destruct (d_get (o_fwd o) k) eqn:E; simpl; rewrite ?Nat.eqb_refl; apply same_set_refl.
 Qed.
 
 Lemma o_rel_view s o : o_rel s (oto_view_of o) = o_fwd (oto_side s o).
@@ -224,6 +242,12 @@ Lemma hstep_refines h hop : Forall OtoInv h -> snd (oto_hstep h hop) <> Raise Ba
 Proof.
   intros F NB. destruct hop as [u kvs|i s|i s op|ior i s j t]; simpl in *.
   - (* new *)
+    assert (Erej : existsb (fun p : pair => is_unhashable (fst p)) kvs ||
+                   existsb (fun p : pair => is_unhashable (snd p)) (r_dict kvs) = new_rejects kvs).
+    { unfold new_rejects. f_equal. symmetry. apply (existsb_EqSet (fun p => is_unhashable (snd p))).
+      apply r_dict_dict_of. }
+    match goal with |- (if ?c then _ else _) = true => replace c with (new_rejects kvs) by (symmetry; exact Erej) end.
+    unfold oto_new in *. destruct (new_rejects kvs); simpl; [apply oviews_eqb_refl|].
     destruct u; simpl.
     + destruct (init_shape kvs) as [[NDv [Hi Hu]]|[NDv [Hu Hi]]]; rewrite Hu; simpl.
       * apply unique_cond in NDv. rewrite NDv. simpl.
